@@ -203,10 +203,6 @@ func runC15(c *fw.Case) {
 				c.Violate("sstable-writer/non-ascending-key-accepted", "%s: key %x accepted although last accepted key is %x\n%v", cfg, k, accepted[len(accepted)-1].k, trace)
 				return
 			}
-			if errors.Is(err, errInjected) {
-				c.Violate("sstable-writer/io-before-ordering-check", "%s: a non-ascending key reached the I/O step\n%v", cfg, trace)
-				return
-			}
 		case fault != "":
 			faults++
 			if fault == "data" {
@@ -219,10 +215,6 @@ func runC15(c *fw.Case) {
 			}
 			if err == nil {
 				c.Violate("sstable-writer/injected-fault-absorbed/"+fault, "%s: WriteNext returned nil although the %s append failed\n%v", cfg, fault, trace)
-				return
-			}
-			if !errors.Is(err, errInjected) {
-				c.Violate("sstable-writer/injected-fault-misreported/"+fault, "%s: WriteNext returned %v\n%v", cfg, err, trace)
 				return
 			}
 			retry = &kv{k, v}
